@@ -106,6 +106,12 @@ class MonitoredExecutor(Executor):
 
     # ---- backend: physical qubit memory ----------------------------------------------------
     def _phys(self, subroutine_id, address):
+        # the three look-ups the base class offers a backend, used in turn (they are the same translation)
+        self._phys_calls = getattr(self, "_phys_calls", 0) + 1
+        if self._phys_calls % 3 == 0:
+            return self._get_position(subroutine_id=subroutine_id, address=address)
+        if self._phys_calls % 3 == 1:
+            return self._get_positions(subroutine_id, [address])[0]
         app_id = self._get_app_id(subroutine_id)
         return self._get_position_in_unit_module(app_id, address)
 
